@@ -145,10 +145,9 @@ c.ens("same-invocation", lambda S_: Implies(bv(S_.result), S_.a.frame == S_.old.
 c.modifies = lambda S_: []
 
 # CallbackContext.process: runs the deferred callbacks (host plugins may fail inside: see C20)
-c = contract(CB, "CallbackContext.process", [])
+c = contract(CB, "CallbackContext.process", [], coarse=True)
 c.param("self", OBJ("CallbackContext")).param("ctx", VAL).param("event", STR).param("frame", FRAME()).param("arg", ANY)
 c.result = VAL
 c.logged = "CallbackContext.process"
 c.modifies = lambda S_: [("all",)]
 c.sig("BaseException", "a-callback-failed")
-c.coarse = True
